@@ -87,7 +87,7 @@ def mk_init(it, prog, shape):
 
 def mk_body(it, nbits, nrefs):
     pat = ('1101001110' * 110)[:nbits]
-    return cm.new_cell(it, cm.tvm_bits(it, BA([Seg(nbits, 'k', pat)] if nbits else [])), [cm.leaf(it, 0, f'b{i}') for i in range(nrefs)])
+    return cm.new_cell(it, cm.tvm_bits(it, BA([Seg(nbits, 'k', pat)] if nbits else [])), [cm.new_cell(it, cm.tvm_bits(it, BA([Seg(i + 1, 'k', '1' + '0' * i)])), []) for i in range(nrefs)])   # distinguishable children
 
 
 def scenario(prog, db, kind, shape, nbits, nrefs):
